@@ -8,6 +8,9 @@
 #ifndef LIB_MAXPARTS
 #define LIB_MAXPARTS 3
 #endif
+#ifndef LIB_NPARTS
+#define LIB_NPARTS 0
+#endif
 
 /* ---- (string/repeat bytes n): n >= 0 else raises; a new string of n * len bytes - raises instead of exceeding
  * INT32_MAX - whose byte i is bytes[i mod len], i.e. copy c (0 <= c < n) occupies [c * len, (c + 1) * len) */
